@@ -13,9 +13,20 @@ V = os.path.dirname(os.path.dirname(os.path.abspath(__file__)))
 PY = "/venv/bin/python"
 
 
+SEED_ROOT = os.environ.get("SEED_ROOT", "/tmp/seed2")
+ROUND = {"/tmp/seed": 1, "/tmp/seed2": 2, "/tmp/seed3": 3}.get(SEED_ROOT, 9)
+
+
 def src(ID):
     """the sub-agent's deliverables"""
-    return f"/tmp/seed/{ID}/out"
+    return f"{SEED_ROOT}/{ID}/out"
+
+
+def kept_name(ID, x):
+    # round 1: C01-a, C01-b; round 2: C01-c, C01-d; round 3: C01-e, C01-f
+    if ROUND == 1:
+        return f"{ID}-{x}"
+    return f"{ID}-{chr(ord(x) + 2 * (ROUND - 1))}"
 
 
 def wt(ID):
@@ -101,7 +112,7 @@ def check(ID, x, props, tier="quick"):
 
 
 def keep(ID, x):
-    d = os.path.join(V, "seeded", f"{ID}-{x}")
+    d = os.path.join(V, "seeded", kept_name(ID, x))
     os.makedirs(d, exist_ok=True)
     w = src(ID)
     shutil.copy(f"{w}/{x}.diff", f"{d}/patch.diff")
@@ -111,7 +122,8 @@ def keep(ID, x):
     ver = json.load(open(f"{w}/{x}_verify.json")) if os.path.exists(f"{w}/{x}_verify.json") else {}
     chk = json.load(open(f"{w}/{x}_check.json")) if os.path.exists(f"{w}/{x}_check.json") else {}
     out = {"property": ID, "summary": ch.get("summary"), "needs_to_manifest": ch.get("needs"),
-           "files": ch.get("files"), "author": "independent sub-agent given only the property text",
+           "files": ch.get("files"), "author": f"independent sub-agent (round {ROUND}) given only the property text" + (
+               " and one-line summaries of the earlier rounds' changes for this property, to avoid duplicates" if ROUND > 1 else ""),
            "confirmed_by_me": ver,
            "what_i_ran": [f"tools/seedtest.py verify {ID} {x}  (scratch worktree: demo with/without change, full test suite with change)",
                           f"tools/seedtest.py check {ID} {x} ...  (./check against the worktree with the change applied via COOLER_VERIF_REPO)"],
